@@ -10,6 +10,7 @@ pub mod c12;
 pub mod c13;
 pub mod c14;
 pub mod c15;
+pub mod c16;
 pub mod c17;
 pub mod c18;
 
@@ -26,6 +27,7 @@ pub fn lookup(id: &str) -> Option<fn(&Report, bool) -> Evidence> {
         "C13" => c13::run,
         "C14" => c14::run,
         "C15" => c15::run,
+        "C16" => c16::run,
         "C17" => c17::run,
         "C18" => c18::run,
         _ => return None,
